@@ -113,14 +113,21 @@ namespace embedded_pairing::wkdibe {
         int x = 0; /* Index for reading from sk.b */
         for (int i = 0; i != params.l; i++) {
             if (k != attrs.length && attrs.attrs[k].idx == i) {
+                /*
+                 * If slot i is free in sk, its entry in sk.b is consumed here
+                 * whether the slot is being filled in or hidden.
+                 */
+                bool free_in_sk = (x != sk.l && sk.b[x].idx == i);
                 if (!attrs.attrs[k].omitFromKeys) {
                     temp.multiply(params.h[i], attrs.attrs[k].id);
                     product.add(product, temp);
-                    if (x != sk.l && sk.b[x].idx == i) {
+                    if (free_in_sk) {
                         temp.multiply(sk.b[x].hexp, attrs.attrs[k].id);
                         qualified.a0.add(qualified.a0, temp);
-                        x++;
                     }
+                }
+                if (free_in_sk) {
+                    x++;
                 }
                 k++;
             } else if (x != sk.l && sk.b[x].idx == i) {
@@ -186,9 +193,15 @@ namespace embedded_pairing::wkdibe {
         int x = 0; /* Index for reading from sk.b */
         for (int i = 0; x != sk.l && i != params.l; i++) {
             if (k != attrs.length && attrs.attrs[k].idx == i) {
-                if (sk.b[x].idx == i && !attrs.attrs[k].omitFromKeys) {
-                    temp.multiply(sk.b[x].hexp, attrs.attrs[k].id);
-                    qualified.a0.add(qualified.a0, temp);
+                /*
+                 * If slot i is free in sk, its entry in sk.b is consumed here
+                 * whether the slot is being filled in or hidden.
+                 */
+                if (sk.b[x].idx == i) {
+                    if (!attrs.attrs[k].omitFromKeys) {
+                        temp.multiply(sk.b[x].hexp, attrs.attrs[k].id);
+                        qualified.a0.add(qualified.a0, temp);
+                    }
                     x++;
                 }
                 k++;
